@@ -667,6 +667,38 @@ func c12_5(c *core.Ctx, p *core.Prog) {
 	}
 	okID := idFrom != nil && core.DerivesFrom(idFrom, func(v ssa.Value) bool { return isFieldLoad(v, a.nextF) })
 	c.Check(okID, "new-entry|id", pos, core.FuncName(ctor), "the new stream producer's schema id derives from the counter", "the schema id of a new stream producer does not derive from the schema-id counter")
+	// the id announced on the wire is that id: every ArrowPayload literal takes its SchemaId from the
+	// string field of a stream producer (the one the counter-derived id was stored in), nothing else
+	{
+		var idF *types.Var
+		st0 := a.sp.Underlying().(*types.Struct)
+		for k := 0; k < st0.NumFields(); k++ {
+			if b, ok := st0.Field(k).Type().Underlying().(*types.Basic); ok && b.Kind() == types.String {
+				idF = st0.Field(k)
+			}
+		}
+		nLit := 0
+		for _, f := range arrowRecordFuncs(p) {
+			core.EachInstr(f, func(i ssa.Instruction) {
+				s, ok := i.(*ssa.Store)
+				if !ok {
+					return
+				}
+				fa, ok := s.Addr.(*ssa.FieldAddr)
+				if !ok || core.FieldName(fa) != "SchemaId" || core.TypeName(fa.X.Type()) != "ArrowPayload" {
+					return
+				}
+				nLit++
+				okW := idF != nil && isFieldLoad(core.Strip(s.Val), idF)
+				c.Check(okW, fmt.Sprintf("payload|schema-id#%d", nLit), p.Pos(s.Pos()), core.FuncName(f),
+					"the payload announces the schema id of the stream producer that wrote it",
+					"the SchemaId of the payload is not the id kept by the stream producer (the number allocated when its IPC stream was opened): an id computed from the schema or the message comes back when a payload type returns to an earlier schema, so a retired id is reused for a new IPC stream")
+			})
+		}
+		if nLit == 0 {
+			c.Undecided("payload|schema-id", pos, core.FuncName(ctor), "no ArrowPayload literal with a SchemaId found")
+		}
+	}
 	// payload type: some store to the stream producer's payload-type field takes the message's PayloadType()
 	// (directly, or through a parameter of the constructing helper whose call sites pass it)
 	var ptF *types.Var
